@@ -6,13 +6,17 @@
 //       detach h [via]             via.DetachMsgHandler(h)   (via = bus object the call is made on, default 0)
 //       destroy h                  delete h
 //       cb bus 0|1                 SetMsgHandler(0 / callback)
-//       msg bus pgn                one single-frame CAN message of that PGN + ParseMessages()
-//       tp bus pgn                 broadcast transport-protocol transfer (TP.CM BAM + 2 TP.DT) carrying pgn + ParseMessages()
-//       fp bus pgn src len b0,b1,.. flags   fast-packet frames with first bytes b0,b1,... (sequence id * 32 + frame counter) from
-//                                  source src, first frames announce len bytes; ParseMessages() after every frame; flags = one
-//                                  0/1 per frame: whether a strict in-order receiver has a complete message after that frame
+//       msg bus pgn                one single-frame CAN message of that PGN arrives, then ParseMessages()
+//       tp bus pgn [len [dst]]     transport-protocol transfer carrying pgn: TP.CM BAM (dst 255) or RTS + all TP.DT packets of a
+//                                  len byte payload (default 9) arrive, then ParseMessages() until the driver is empty
+//       fp bus pgn src len b0,b1,..   fast-packet frames with first bytes b0,b1,... (sequence id * 32 + frame counter) from
+//                                  source src, first frames announce len bytes; ParseMessages() after every frame
 //       probe p1 p2 ...            = msg 0 p1, msg 1 p1, msg 0 p2, ... reported on one line
-// output of msg/tp:  "cb=<times the plain callback ran> h=<ids in call order|->"
+//       hold bus 0|1               1: frames of msg/tp/fp/probe only arrive in the driver (output "queued"), nothing is polled
+//       poll bus                   one ParseMessages() (reads at most 20 waiting frames)
+//       mode bus bit 0|1           SetForwardSystemMessages (bit 1) / SetForwardOnlyKnownMessages (2) / SetForwardOwnMessages (3) /
+//                                  SetHandleOnlyKnownMessages (4)
+// output of msg/tp/fp/poll:  "cb=<times the plain callback ran> h=<ids in call order|->"
 #include "node.h"
 using namespace vh;
 static Ctx C;
@@ -23,9 +27,9 @@ static const unsigned long TP_CM_PGN = 60416UL, TP_DT_PGN = 60160UL;
 // ---- the call log (what the real code did) ------------------------------------------------------
 struct Call { int h; unsigned long pgn; unsigned src; };
 static std::vector<Call> calls;
-static int cbRuns[NBUS]; static unsigned long cbPgn[NBUS]; static unsigned cbSrc[NBUS];
-static void cb0(const tN2kMsg &m) { cbRuns[0]++; cbPgn[0] = m.PGN; cbSrc[0] = m.Source; }
-static void cb1(const tN2kMsg &m) { cbRuns[1]++; cbPgn[1] = m.PGN; cbSrc[1] = m.Source; }
+static std::vector<Call> cbCalls[NBUS];
+static void cb0(const tN2kMsg &m) { cbCalls[0].push_back({-1, m.PGN, m.Source}); }
+static void cb1(const tN2kMsg &m) { cbCalls[1].push_back({-1, m.PGN, m.Source}); }
 
 // several unrelated subclasses of the library's handler class
 struct HA : public tNMEA2000::tMsgHandler {
@@ -47,6 +51,7 @@ struct HC : public HA {
 struct Bus : public MockN2k {
   bool listEmpty() const { return MsgHandlers == 0; }
   void forceEmpty() { MsgHandlers = 0; }
+  void mode(int bit, bool v) { if (bit == 1) SetForwardSystemMessages(v); else if (bit == 2) SetForwardOnlyKnownMessages(v); else if (bit == 3) SetForwardOwnMessages(v); else SetHandleOnlyKnownMessages(v); }
   void dropPartialMessages() { for (int i = 0; i < MaxN2kCANMsgs; i++) N2kCANMsgBuf[i].FreeMessage(); }   // cases are self-contained
 };
 static Bus *bus[NBUS];
@@ -77,78 +82,21 @@ static bool isFastPacketPgn(unsigned long pgn) {   // the PGNs used here that th
   return pgn == 129029UL || pgn == 126996UL || pgn == 126208UL || pgn == 129540UL || pgn == 126720UL || (pgn >= 130816UL && pgn <= 131071UL);
 }
 
-// queue one complete single-frame message (or a lone TP frame) of the given PGN
-static unsigned inject(Bus &b, unsigned long pgn) {
-  unsigned char d[8]; unsigned char len = 8; unsigned src = 0x23;
-  memset(d, 0xff, 8);
-  if (pgn == 59904UL) { d[0] = 0x00; d[1] = 0xEE; d[2] = 0x00; len = 3; }                       // ISO request for 60928
-  else if (pgn == 60928UL) { unsigned char nm[8] = {0x11, 0x22, 0x33, 0x44, 0x00, 0x82, 0x32, 0xC0}; memcpy(d, nm, 8); src = 0x42; }
-  else if (pgn == TP_CM_PGN) { d[0] = 255; d[5] = 0x00; d[6] = 0xF2; d[7] = 0x01; }                 // connection abort, not for us
-  else if (pgn == TP_DT_PGN) { d[0] = 1; }                                                        // data packet of no transfer
-  else if (isFastPacketPgn(pgn)) { d[0] = 0x40; d[1] = 4; d[2] = 1; d[3] = 2; d[4] = 3; d[5] = 4; } // whole fast packet in its first frame
-  else { for (int i = 0; i < 8; i++) d[i] = (unsigned char)(i + 1); }
-  b.rx(canId(6, pgn, src, 255), len, d);
-  return src;
-}
-static void injectTp(Bus &b, unsigned long pgn) {
-  unsigned char d[8] = {32, 9, 0, 2, 0xff, (unsigned char)(pgn & 0xff), (unsigned char)((pgn >> 8) & 0xff), (unsigned char)((pgn >> 16) & 0xff)};
-  b.rx(canId(7, TP_CM_PGN, 0x31, 255), 8, d);
-  unsigned char p1[8] = {1, 1, 2, 3, 4, 5, 6, 7}, p2[8] = {2, 8, 9, 0xff, 0xff, 0xff, 0xff, 0xff};
-  b.rx(canId(7, TP_DT_PGN, 0x31, 255), 8, p1);
-  b.rx(canId(7, TP_DT_PGN, 0x31, 255), 8, p2);
-}
-
 static const char *pgnClass(unsigned long h) { return h == 0 ? "all-pgn-handler" : "pgn-handler"; }
 
-// run the receive path for what was queued on bus b and compare with the reference; `want` = PGN of the message that
-// must be delivered (from source wantSrc), or -1 when no message was completed by the frames queued (lone
-// transport-protocol frames, fast-packet fragments, frames of a damaged fast packet); `cls` names the frame class
-struct Res { int cb = 0; std::vector<int> ids; };
-static std::string fmt(const Res &r) {
-  std::string out = "cb=" + std::to_string(r.cb) + " h=";
-  if (r.ids.empty()) out += "-";
-  for (size_t i = 0; i < r.ids.size(); i++) { if (i) out += ','; out += std::to_string(r.ids[i]); }
-  return out;
+// ---- reference receiver, written from the property and the frame formats (independent of the library and of the model) ----
+// the PGNs of this harness the library knows by default (its documented default lists); everything else is "unknown"
+static bool knownRef(unsigned long p) {
+  static const unsigned long k[] = {59392UL, 59904UL, 60928UL, 65240UL, 126208UL, 126464UL, 126992UL, 126993UL, 126996UL, 126998UL,
+                                    127250UL, 127488UL, 129025UL, 129029UL, 129540UL, 130306UL};
+  for (unsigned long x : k) if (x == p) return true;
+  return false;
 }
-static void deliverInto(Res &res, int b, long want, unsigned wantSrc, const char *cls) {
-  calls.clear(); cbRuns[0] = cbRuns[1] = 0;
-  g_now++;
-  bus[b]->ParseMessages();
-  bus[b]->sent.clear();
-  res.cb += cbRuns[0] + cbRuns[1];
-  for (auto &c : calls) res.ids.push_back(c.h);
-  // ---- oracle
-  std::string none = std::string("no-message-completed:") + cls;
-  int n[MAXH]; memset(n, 0, sizeof n);
-  for (auto &c : calls) {
-    if (c.h < 0 || c.h >= MAXH) { C.fail("harness:bad-id", "id %d", c.h); continue; }
-    n[c.h]++;
-    if (want >= 0 && (c.pgn != (unsigned long)want || c.src != wantSrc))
-      C.fail(std::string("C14:wrong-message:") + cls, "handler %d got PGN %lu from %u, the completed message was %ld from %u", c.h, c.pgn, c.src, want, wantSrc);
-  }
-  for (int h = 0; h < MAXH; h++) {
-    bool match = want >= 0 && ref[h].live && ref[h].bus == b && (ref[h].pgn == 0 || ref[h].pgn == (unsigned long)want);
-    if (match && n[h] == 0) C.fail(std::string("C14:missed:") + pgnClass(ref[h].pgn), "handler %d (PGN %lu) on bus %d not called for %ld", h, ref[h].pgn, b, want);
-    if (match && n[h] > 1) C.fail(std::string("C14:duplicate:") + pgnClass(ref[h].pgn), "handler %d called %d times for %ld", h, n[h], want);
-    if (!match && n[h] > 0) {
-      std::string why = want < 0 ? none : !ref[h].live ? "destroyed" : ref[h].bus < 0 ? "detached" : ref[h].bus != b ? "other-bus" : "other-pgn";
-      unsigned long gp = 0; unsigned gs = 0; for (auto &c : calls) if (c.h == h) { gp = c.pgn; gs = c.src; }
-      C.fail("C14:extra:" + why, "handler %d (PGN %lu, bus %d) called %d times with PGN %lu from %u; completed message: %ld, bus %d", h, ref[h].pgn, ref[h].bus, n[h], gp, gs, want, b);
-    }
-    if (match) caseHit = true;
-  }
-  int wantCb = (want >= 0 && refCb[b]) ? 1 : 0;
-  if (cbRuns[b] != wantCb) C.fail(want < 0 ? "C14:callback:" + none : cbRuns[b] < wantCb ? std::string("C14:callback:missed") : std::string("C14:callback:extra"),
-                                 "plain callback of bus %d ran %d times (last PGN %lu from %u), expected %d", b, cbRuns[b], cbPgn[b], cbSrc[b], wantCb);
-  else if (wantCb && (cbPgn[b] != (unsigned long)want || cbSrc[b] != wantSrc))
-    C.fail(std::string("C14:wrong-message:") + cls, "callback got PGN %lu from %u, the completed message was %ld from %u", cbPgn[b], cbSrc[b], want, wantSrc);
-  if (cbRuns[1 - b] != 0) C.fail("C14:callback:other-bus", "plain callback of bus %d ran for a message on bus %d", 1 - b, b);
-}
-static std::string deliver(int b, long want, unsigned wantSrc, const char *cls) { Res r; deliverInto(r, b, want, wantSrc, cls); return fmt(r); }
-
-// ---- fast-packet reference receiver, from the format: a message is completely received when its first frame
-// (counter 0, announcing the length) was followed, frame by frame, by the frames with the next first bytes until
-// the announced number of bytes has arrived; any other continuation frame ends the reception without a message
+static bool refHandleKnown[NBUS], hold[NBUS];
+static bool refHandled(int b, unsigned long p) { return knownRef(p) || !refHandleKnown[b]; }
+// fast packet: a message is completely received when its first frame (counter 0, announcing the length) was followed, frame
+// by frame, by the frames with the next first bytes until the announced number of bytes has arrived; any other continuation
+// frame ends the reception without a message
 struct FpRx { bool active = false; unsigned last = 0; unsigned got = 0, len = 0; };
 static std::map<std::tuple<int, unsigned long, unsigned>, FpRx> fpState;
 static bool fpRefFrame(FpRx &st, unsigned b0, unsigned len) {
@@ -158,10 +106,112 @@ static bool fpRefFrame(FpRx &st, unsigned b0, unsigned len) {
   if (st.got >= st.len) { st.active = false; return true; }
   return false;
 }
-static std::string fpFlags(int b, unsigned long pgn, unsigned src, unsigned len, const std::vector<unsigned> &fr) {
-  FpRx st = fpState[std::make_tuple(b, pgn, src)];   // copy: the generator only predicts
-  std::string f; for (unsigned b0 : fr) f += fpRefFrame(st, b0, len) ? '1' : '0';
-  return f;
+// transport protocol: an announced transfer (at most 223 bytes, the library's message size) is complete with its last packet
+struct TpRx { bool open = false; unsigned long pgn = 0; };
+static std::map<std::tuple<int, unsigned, unsigned>, TpRx> tpState;
+// every frame waiting in the driver, as the reference sees it
+enum Kind { K_MSG, K_NOTHING, K_FP, K_TPCM, K_TPDT, K_TPLAST };
+struct RefFrame { Kind kind; unsigned long pgn; unsigned src, dst, b0, len; const char *cls; };
+static std::deque<RefFrame> refQ[NBUS];
+static void arrive(int b, unsigned long id, unsigned char len, const unsigned char *d, const RefFrame &rf) { bus[b]->rx(id, len, d); refQ[b].push_back(rf); }
+
+// one single-frame message (or a lone TP frame) of the given PGN arrives
+static void inject(int b, unsigned long pgn) {
+  unsigned char d[8]; unsigned char len = 8; unsigned src = 0x23;
+  memset(d, 0xff, 8);
+  RefFrame rf{K_MSG, pgn, src, 255, 0, 8, "single-frame"};
+  if (pgn == 59904UL) { d[0] = 0x00; d[1] = 0xEE; d[2] = 0x00; len = 3; }                       // ISO request for 60928
+  else if (pgn == 60928UL) { unsigned char nm[8] = {0x11, 0x22, 0x33, 0x44, 0x00, 0x82, 0x32, 0xC0}; memcpy(d, nm, 8); src = 0x42; }
+  else if (pgn == TP_CM_PGN) { d[0] = 255; d[5] = 0x00; d[6] = 0xF2; d[7] = 0x01; rf.kind = K_NOTHING; rf.cls = "lone-tp-frame"; }   // connection abort, not for us
+  else if (pgn == TP_DT_PGN) { d[0] = 1; rf.kind = K_NOTHING; rf.cls = "lone-tp-frame"; }                                          // data packet of no transfer
+  else if (isFastPacketPgn(pgn)) { d[0] = 0x40; d[1] = 4; d[2] = 1; d[3] = 2; d[4] = 3; d[5] = 4; rf.kind = K_FP; rf.b0 = 0x40; rf.len = 4; rf.cls = "fp-first-frame"; } // whole fast packet in its first frame
+  else { for (int i = 0; i < 8; i++) d[i] = (unsigned char)(i + 1); }
+  rf.src = src;
+  arrive(b, canId(6, pgn, src, 255), len, d, rf);
+}
+// a whole transport-protocol transfer (announce + every data packet) of a `len` byte payload arrives
+static void injectTp(int b, unsigned long pgn, unsigned len, unsigned dst) {
+  const unsigned src = 0x31; unsigned npk = (len + 6) / 7;
+  unsigned char d[8] = {(unsigned char)(dst == 255 ? 32 : 16), (unsigned char)(len & 0xff), (unsigned char)(len >> 8), (unsigned char)npk, 0xff,
+                        (unsigned char)(pgn & 0xff), (unsigned char)((pgn >> 8) & 0xff), (unsigned char)((pgn >> 16) & 0xff)};
+  arrive(b, canId(7, TP_CM_PGN, src, dst), 8, d, RefFrame{K_TPCM, pgn, src, dst, 0, len, "tp-transfer"});
+  for (unsigned k = 1; k <= npk; k++) {
+    unsigned char p[8]; p[0] = (unsigned char)k;
+    for (unsigned j = 0; j < 7; j++) { unsigned i = (k - 1) * 7 + j; p[1 + j] = i < len ? (unsigned char)(i * 3 + 1) : 0xff; }
+    arrive(b, canId(7, TP_DT_PGN, src, dst), 8, p, RefFrame{k == npk ? K_TPLAST : K_TPDT, pgn, src, dst, 0, len, "tp-transfer"});
+  }
+}
+
+struct Res { int cb = 0; std::vector<int> ids; };
+static std::string fmt(const Res &r) {
+  std::string out = "cb=" + std::to_string(r.cb) + " h=";
+  if (r.ids.empty()) out += "-";
+  for (size_t i = 0; i < r.ids.size(); i++) { if (i) out += ','; out += std::to_string(r.ids[i]); }
+  return out;
+}
+static bool sameSeq(const std::vector<Call> &g, const std::vector<Call> &e) {
+  if (g.size() != e.size()) return false;
+  for (size_t i = 0; i < g.size(); i++) if (g[i].pgn != e[i].pgn || g[i].src != e[i].src) return false;
+  return true;
+}
+static std::string seqStr(const std::vector<Call> &v) { std::string r; for (auto &c : v) { char t[40]; snprintf(t, sizeof t, "%s%lu/%u", r.empty() ? "" : ",", c.pgn, c.src); r += t; } return r.empty() ? "-" : r; }
+
+// one ParseMessages() of bus b.  The reference handles the (at most 20) oldest waiting frames and so knows the messages E this
+// call completes, in order.  Oracle (from the property): the callback (if set) and every handler attached to b and registered
+// for PGN 0 or the message's PGN get exactly E restricted to their PGN, in order, each message with its PGN and source; nobody
+// else is called.
+static void pollBus(Res &res, int b) {
+  std::vector<Call> E; std::string cls;
+  for (int k = 0; k < 20 && !refQ[b].empty(); k++) {
+    RefFrame f = refQ[b].front(); refQ[b].pop_front();
+    if (cls.empty()) cls = f.cls; else if (cls != f.cls) cls = "mixed";
+    bool done = false;
+    switch (f.kind) {
+      case K_MSG: done = refHandled(b, f.pgn); break;
+      case K_NOTHING: case K_TPDT: break;
+      case K_FP: if (refHandled(b, f.pgn)) done = fpRefFrame(fpState[std::make_tuple(b, f.pgn, f.src)], f.b0, f.len); break;
+      case K_TPCM: { TpRx &t = tpState[std::make_tuple(b, f.src, f.dst)]; t.open = refHandled(b, f.pgn) && f.len <= 223; t.pgn = f.pgn; break; }
+      case K_TPLAST: { TpRx &t = tpState[std::make_tuple(b, f.src, f.dst)]; if (t.open && t.pgn == f.pgn) done = true; t.open = false; break; }
+    }
+    if (done) E.push_back({-1, f.pgn, f.src});
+  }
+  if (cls.empty()) cls = "empty-poll";
+  calls.clear(); cbCalls[0].clear(); cbCalls[1].clear();
+  g_now++;
+  bus[b]->ParseMessages();
+  bus[b]->sent.clear();
+  res.cb += (int)(cbCalls[0].size() + cbCalls[1].size());
+  for (auto &c : calls) res.ids.push_back(c.h);
+  C.count("polls"); C.count("messages_completed", (long)E.size()); if (E.size() > 1) C.count("polls_completing_several_messages");
+  // ---- oracle
+  std::string none = "no-message-completed:" + cls;
+  for (auto &c : calls) if (c.h < 0 || c.h >= MAXH) C.fail("harness:bad-id", "id %d", c.h);
+  for (int h = 0; h < MAXH; h++) {
+    std::vector<Call> Eh, Gh;
+    bool here = ref[h].live && ref[h].bus == b;
+    if (here) for (auto &e : E) if (ref[h].pgn == 0 || ref[h].pgn == e.pgn) Eh.push_back(e);
+    for (auto &c : calls) if (c.h == h) Gh.push_back(c);
+    if (!Eh.empty()) caseHit = true;
+    if (Gh.size() < Eh.size())
+      C.fail(std::string("C14:missed:") + pgnClass(ref[h].pgn) + ":" + cls, "handler %d (PGN %lu) on bus %d got %s, the completed messages for it were %s", h, ref[h].pgn, b, seqStr(Gh).c_str(), seqStr(Eh).c_str());
+    else if (Gh.size() > Eh.size()) {
+      std::string why = !ref[h].live ? "destroyed" : ref[h].bus < 0 ? "detached" : ref[h].bus != b ? "other-bus" : E.empty() ? none : Eh.empty() ? "other-pgn" : std::string("duplicate:") + pgnClass(ref[h].pgn);
+      C.fail((Eh.empty() || !here ? "C14:extra:" : "C14:") + why, "handler %d (PGN %lu, bus %d) got %s on bus %d, the completed messages for it were %s", h, ref[h].pgn, ref[h].bus, seqStr(Gh).c_str(), b, seqStr(Eh).c_str());
+    } else if (!sameSeq(Gh, Eh))
+      C.fail("C14:wrong-message:" + cls, "handler %d got %s, the completed messages for it were %s", h, seqStr(Gh).c_str(), seqStr(Eh).c_str());
+  }
+  std::vector<Call> Ecb; if (refCb[b]) Ecb = E;
+  if (cbCalls[b].size() < Ecb.size()) C.fail("C14:callback:missed:" + cls, "plain callback of bus %d got %s, completed: %s", b, seqStr(cbCalls[b]).c_str(), seqStr(Ecb).c_str());
+  else if (cbCalls[b].size() > Ecb.size()) C.fail(E.empty() ? "C14:callback:" + none : std::string("C14:callback:extra"), "plain callback of bus %d got %s, completed: %s", b, seqStr(cbCalls[b]).c_str(), seqStr(Ecb).c_str());
+  else if (!sameSeq(cbCalls[b], Ecb)) C.fail("C14:wrong-message:" + cls, "callback got %s, completed: %s", seqStr(cbCalls[b]).c_str(), seqStr(Ecb).c_str());
+  if (!cbCalls[1 - b].empty()) C.fail("C14:callback:other-bus", "plain callback of bus %d ran for a message on bus %d", 1 - b, b);
+}
+// after frames arrived: poll once (or until the driver is empty), unless the bus is on hold
+static std::string after(int b, bool drain) {
+  if (hold[b]) return "queued";
+  Res r; pollBus(r, b);
+  while (drain && !refQ[b].empty()) pollBus(r, b);
+  return fmt(r);
 }
 
 static tNMEA2000::tMsgHandler *mk(int h, unsigned long p, tNMEA2000 *n) {
@@ -182,9 +232,10 @@ static void exec(const std::string &line) {
   if (w[0] == "reset" && w.size() <= 1 + (size_t)MAXH) {
     for (size_t i = 1; i < w.size(); i++) if (!isNum(i)) { C.out("bad-op"); return; }
     for (int h = 0; h < MAXH; h++) { if (H[h]) { delete H[h]; H[h] = nullptr; } ref[h] = RefH(); }
-    fpState.clear();
+    fpState.clear(); tpState.clear();
     for (int b = 0; b < NBUS; b++) {
       bus[b]->SetMsgHandler(0); refCb[b] = false; bus[b]->dropPartialMessages();
+      bus[b]->rxq.clear(); refQ[b].clear(); hold[b] = false; refHandleKnown[b] = false; for (int bit = 1; bit <= 4; bit++) bus[b]->mode(bit, false);
       if (!bus[b]->listEmpty()) { C.fail("C14:dangling-after-destroy-all", "bus %d still points to a handler after every handler was destroyed", b); bus[b]->forceEmpty(); }
     }
     for (size_t i = 1; i < w.size(); i++) { int h = (int)i - 1; H[h] = mk(h, num(i), nullptr); ref[h].live = true; ref[h].pgn = num(i); ref[h].bus = -1; }
@@ -224,55 +275,69 @@ static void exec(const std::string &line) {
     refCb[b] = num(2) == 1; bus[b]->SetMsgHandler(refCb[b] ? (b == 0 ? cb0 : cb1) : 0);
     C.out("ok"); return;
   }
-  if ((w[0] == "msg" || w[0] == "tp") && w.size() == 3) {
+  auto pgnOk = [&](size_t i) { return isNum(i) && num(i) < (1UL << 17) && !((((num(i) >> 8) & 0xff) < 240) && (num(i) & 0xff) != 0); };   // a PGN a CAN id can carry
+  if (w[0] == "msg" && w.size() == 3) {
     int b = bid(1);
-    if (b < 0 || !isNum(2) || num(2) >= (1UL << 17)) { C.out("bad-op"); return; }
+    if (b < 0 || !pgnOk(2)) { C.out("bad-op"); return; }
     unsigned long p = num(2);
-    if (((p >> 8) & 0xff) < 240 && (p & 0xff) != 0) { C.out("bad-op"); return; }   // not a PGN a CAN id can carry
-    if (w[0] == "tp") {
-      if (p == TP_CM_PGN || p == TP_DT_PGN) { C.out("bad-op"); return; }
-      injectTp(*bus[b], p); C.count("tp_transfers");
-      C.outs(deliver(b, (long)p, 0x31, "tp-transfer")); return;
-    }
-    bool lone = p == TP_CM_PGN || p == TP_DT_PGN;
-    if (lone) C.count("lone_tp_frames");
+    if (p == TP_CM_PGN || p == TP_DT_PGN) C.count("lone_tp_frames");
     else if (p == 59904UL || p == 60928UL || p == 59392UL || p == 126208UL) C.count("system_messages");
-    unsigned src = inject(*bus[b], p);
-    C.outs(deliver(b, lone ? -1 : (long)p, src, lone ? "lone-tp-frame" : "single-frame")); return;
+    inject(b, p);
+    C.outs(after(b, false)); return;
   }
-  if (w[0] == "fp" && w.size() == 7) {
+  if (w[0] == "tp" && w.size() >= 3 && w.size() <= 5) {
+    int b = bid(1);
+    if (b < 0 || !pgnOk(2) || num(2) == TP_CM_PGN || num(2) == TP_DT_PGN || (w.size() > 3 && (!isNum(3) || num(3) < 9 || num(3) > 223)) ||
+        (w.size() > 4 && (!isNum(4) || num(4) > 255))) { C.out("bad-op"); return; }
+    unsigned len = w.size() > 3 ? (unsigned)num(3) : 9, dst = w.size() > 4 ? (unsigned)num(4) : 255;
+    injectTp(b, num(2), len, dst); C.count("tp_transfers"); if (len >= 222) C.count("tp_transfers_222_223"); if (dst != 255) C.count("tp_transfers_rts");
+    C.outs(after(b, true)); return;
+  }
+  if (w[0] == "fp" && w.size() == 6) {
     int b = bid(1);
     std::vector<unsigned> fr; bool okList = !w[5].empty();
     { size_t i = 0; while (okList && i <= w[5].size()) { size_t j = w[5].find(',', i); if (j == std::string::npos) j = w[5].size();
         std::string t = w[5].substr(i, j - i); if (t.empty() || t.size() > 3 || t.find_first_not_of("0123456789") != std::string::npos || atoi(t.c_str()) > 255) okList = false; else fr.push_back((unsigned)atoi(t.c_str())); i = j + 1; } }
     if (b < 0 || !isNum(2) || num(2) >= (1UL << 17) || !isFastPacketPgn(num(2)) || !isNum(3) || num(3) > 251 || !isNum(4) || num(4) > 223 ||
-        !okList || fr.size() > 40 || w[6].size() != fr.size() || w[6].find_first_not_of("01") != std::string::npos) { C.out("bad-op"); return; }
+        !okList || fr.size() > 40) { C.out("bad-op"); return; }
     unsigned long p = num(2); unsigned src = (unsigned)num(3), len = (unsigned)num(4);
-    FpRx &st = fpState[std::make_tuple(b, p, src)];
-    Res res; int done = 0;
+    Res res;
     for (size_t k = 0; k < fr.size(); k++) {
       unsigned char d[8]; d[0] = (unsigned char)fr[k];
       if ((fr[k] & 0x1f) == 0) { d[1] = (unsigned char)len; for (int j = 2; j < 8; j++) d[j] = (unsigned char)(j + k); }
       else for (int j = 1; j < 8; j++) d[j] = (unsigned char)(16 * k + j);
-      bus[b]->rx(canId(6, p, src, 255), 8, d);
-      bool complete = fpRefFrame(st, fr[k], len);
-      if (complete) done++;
-      deliverInto(res, b, complete ? (long)p : -1, src, (fr[k] & 0x1f) == 0 ? "fp-first-frame" : "fp-continuation");
+      arrive(b, canId(6, p, src, 255), 8, d, RefFrame{K_FP, p, src, 255, fr[k], len, (fr[k] & 0x1f) == 0 ? "fp-first-frame" : "fp-continuation"});
+      if (!hold[b]) pollBus(res, b);
     }
-    C.count("fp_frames", (long)fr.size()); C.count("fp_messages_completed", done); if (w[6].find('1') == std::string::npos) C.count("fp_ops_without_complete_message");
-    C.outs(fmt(res)); return;
+    C.count("fp_frames", (long)fr.size());
+    C.outs(hold[b] ? std::string("queued") : fmt(res)); return;
   }
   if (w[0] == "probe" && w.size() >= 2) {
-    for (size_t i = 1; i < w.size(); i++) {
-      if (!isNum(i) || num(i) >= (1UL << 17) || num(i) == TP_CM_PGN || num(i) == TP_DT_PGN || (((num(i) >> 8) & 0xff) < 240 && (num(i) & 0xff) != 0)) { C.out("bad-op"); return; }
-    }
+    for (size_t i = 1; i < w.size(); i++) if (!pgnOk(i) || num(i) == TP_CM_PGN || num(i) == TP_DT_PGN) { C.out("bad-op"); return; }
     std::string out;
     for (size_t i = 1; i < w.size(); i++) for (int b = 0; b < NBUS; b++) {
-      unsigned src = inject(*bus[b], num(i));
+      inject(b, num(i));
       if (!out.empty()) out += " | ";
-      out += deliver(b, (long)num(i), src, "single-frame");
+      out += after(b, false);
     }
     C.outs(out); return;
+  }
+  if (w[0] == "hold" && w.size() == 3) {
+    int b = bid(1);
+    if (b < 0 || !isNum(2) || num(2) > 1) { C.out("bad-op"); return; }
+    hold[b] = num(2) == 1; C.out("ok"); return;
+  }
+  if (w[0] == "poll" && w.size() == 2) {
+    int b = bid(1);
+    if (b < 0) { C.out("bad-op"); return; }
+    if (refQ[b].size() > 20) C.count("polls_with_more_than_20_frames_waiting");
+    Res r; pollBus(r, b); C.outs(fmt(r)); return;
+  }
+  if (w[0] == "mode" && w.size() == 4) {
+    int b = bid(1);
+    if (b < 0 || !isNum(2) || num(2) < 1 || num(2) > 4 || !isNum(3) || num(3) > 1) { C.out("bad-op"); return; }
+    bus[b]->mode((int)num(2), num(3) == 1); if (num(2) == 4) refHandleKnown[b] = num(3) == 1;
+    C.out("ok"); return;
   }
   C.out("bad-op");
 }
@@ -310,6 +375,7 @@ static std::vector<std::string> alphabetFor(const std::vector<unsigned long> &pg
 // one fast-packet transfer of `len` bytes with sequence id `seq`, damaged in the way `dmg` says
 static const char *DMG[] = {"intact", "missing-middle", "missing-last", "missing-first", "wrong-counter", "duplicate", "swapped", "wrong-seq", "restart", "truncated-then-intact"};
 static const int NDMG = 10;
+static int lastFpFrames = 0;
 static std::string fpLine(Rng &R, int b, unsigned long pgn, unsigned src, unsigned len, unsigned seq, int dmg) {
   unsigned nfr = len <= 6 ? 1 : 1 + (len - 6 + 6) / 7;
   std::vector<unsigned> fr; for (unsigned k = 0; k < nfr; k++) fr.push_back((seq % 8) * 32 + k);
@@ -329,7 +395,8 @@ static std::string fpLine(Rng &R, int b, unsigned long pgn, unsigned src, unsign
   if (fr.size() > 40) fr.resize(40);
   std::string l; for (size_t i = 0; i < fr.size(); i++) { if (i) l += ','; l += std::to_string(fr[i]); }
   C.count(std::string("fp_") + DMG[dmg]);
-  return S("fp %d %lu %u %u ", b, pgn, src, len) + l + " " + fpFlags(b, pgn, src, len, fr);
+  lastFpFrames = (int)fr.size();
+  return S("fp %d %lu %u %u ", b, pgn, src, len) + l;
 }
 
 // damaged and intact fast packets observed by the callback, all-PGN handlers and PGN handlers on both buses
@@ -352,6 +419,65 @@ static void fpCase(Rng &R, int nops) {
   }
 }
 
+static const unsigned TPLEN[] = {9, 13, 14, 15, 16, 21, 22, 100, 216, 217, 218, 222, 223};
+static unsigned nodeAddr = 25;   // address of the active node on bus 1 (read after it has opened)
+static unsigned tpDst(Rng &R) { unsigned k = (unsigned)R.below(4); return k < 2 ? 255 : k == 2 ? nodeAddr : 77; }
+
+// bursts: more frames wait in the driver than one ParseMessages() reads (20); every message completed by any of them must still
+// be passed on exactly once, by that or a later poll
+static void burstCase(Rng &R) {
+  const unsigned long pg[] = {127488UL, 130306UL, 129025UL, 65300UL, 127250UL};
+  exec(S("reset 0 %lu %lu 0 %lu", pg[0], pg[1], 129029UL));
+  for (int h = 0; h < 5; h++) exec(S("attach %d %d", h, h == 3 ? 1 : (int)R.below(NBUS)));
+  exec("attach 0 0"); exec("attach 3 1"); exec("cb 0 1"); if (R.chance(1, 2)) exec("cb 1 1");
+  int b = (int)R.below(NBUS);
+  exec(S("hold %d 1", b));
+  int want = (int)R.range(21, 75), queued = 0; unsigned seq = (unsigned)R.below(8);
+  while (queued < want) {
+    unsigned r = (unsigned)R.below(100);
+    if (r < 70) { exec(S("msg %d %lu", b, pg[R.below(5)])); queued += 1; }
+    else if (r < 85) { exec(fpLine(R, b, 129029UL, 0x51, (unsigned)R.range(0, 45), seq++, R.chance(2, 3) ? 0 : (int)R.range(1, NDMG - 1))); queued += lastFpFrames; }
+    else if (r < 92) { unsigned len = TPLEN[R.below(sizeof TPLEN / sizeof TPLEN[0])]; exec(S("tp %d %lu %u %u", b, R.chance(1, 2) ? 129029UL : 130820UL, len, tpDst(R))); queued += 1 + (int)((len + 6) / 7); }
+    else if (r < 96) exec(S("msg %d %lu", 1 - b, pg[R.below(5)]));     // the other bus is polled as usual
+    else if (queued > 20) { exec(S("poll %d", b)); queued -= 20; }
+  }
+  for (int k = 0; k < (queued + 19) / 20 + 1; k++) exec(S("poll %d", b));
+  exec(S("hold %d 0", b)); exec(S("msg %d %lu", b, pg[0]));
+  C.count("burst_cases");
+}
+
+// every announced payload length incl. the largest message the library holds (223 bytes), broadcast (BAM) and addressed (RTS) to
+// the node itself and to somebody else
+static void tpCase(Rng &R) {
+  exec(S("reset 0 %lu %lu 0 %lu %lu", 129029UL, 130820UL, TP_CM_PGN, TP_DT_PGN));
+  for (int h = 0; h < 6; h++) exec(S("attach %d %d", h, h == 3 ? 1 : h == 0 ? 0 : (int)R.below(NBUS)));
+  exec("cb 0 1"); exec("cb 1 1");
+  for (unsigned len : TPLEN) for (unsigned dst : {255u, nodeAddr, 77u}) {
+    int b = (int)R.below(NBUS);
+    exec(S("tp %d %lu %u %u", b, R.chance(1, 2) ? 129029UL : 130820UL, len, dst));
+    if (R.chance(1, 4)) exec(S("msg %d %lu", b, 127488UL));
+  }
+  C.count("tp_cases");
+}
+
+// configuration: "handle only known messages" and the message-forwarding options, set and cleared in any order, then known and
+// unknown PGNs by every path (single frame, fast packet, transport protocol)
+static void modeCase(Rng &R, int nops) {
+  const unsigned long pg[] = {127488UL, 65300UL, 65301UL, 61184UL, 129029UL, 130816UL, 59904UL, 126720UL};
+  exec(S("reset 0 0 %lu %lu %lu %lu", pg[0], pg[1], pg[4], pg[5]));
+  for (int h = 0; h < 6; h++) exec(S("attach %d %d", h, h == 1 ? 1 : h == 0 ? 0 : (int)R.below(NBUS)));
+  exec("cb 0 1"); exec("cb 1 1");
+  unsigned seq = 0;
+  for (int i = 0; i < nops; i++) {
+    int b = (int)R.below(NBUS); unsigned r = (unsigned)R.below(100);
+    if (r < 30) exec(S("mode %d %d %d", b, (int)R.range(1, 4), (int)R.below(2)));
+    else if (r < 70) exec(S("msg %d %lu", b, pg[R.below(8)]));
+    else if (r < 82) exec(S("tp %d %lu %u %u", b, pg[R.below(6)], TPLEN[R.below(sizeof TPLEN / sizeof TPLEN[0])], tpDst(R)));
+    else exec(fpLine(R, b, R.chance(1, 2) ? 129029UL : 130816UL, R.chance(1, 2) ? 0x51 : 0x52, (unsigned)R.range(5, 30), seq++, R.chance(3, 4) ? 0 : (int)R.range(1, NDMG - 1)));
+  }
+  C.count("mode_cases");
+}
+
 static void randomCase(Rng &R, int len) {
   static const unsigned long pool[] = {0, 0, 127488UL, 127488UL, 130306UL, 59904UL, 60928UL, TP_CM_PGN, TP_DT_PGN, 129029UL, 65280UL, 126992UL, 126208UL, 59392UL, 1UL << 16};
   static const unsigned long msgPool[] = {127488UL, 130306UL, 59904UL, 60928UL, TP_CM_PGN, TP_DT_PGN, 129029UL, 65280UL, 126992UL, 59392UL, 0UL, 126996UL, 61184UL, 130816UL, 1UL << 16};
@@ -366,8 +492,10 @@ static void randomCase(Rng &R, int len) {
     else if (r < 42) exec(S("attach %d %d", h, b));
     else if (r < 54) { if (R.chance(1, 2)) exec(S("detach %d", h)); else exec(S("detach %d %d", h, b)); }
     else if (r < 62) exec(S("destroy %d", h));
-    else if (r < 66) exec(S("cb %d %d", b, (int)R.below(2)));
-    else if (r < 70) { unsigned long p = pool[R.below(np)]; if (p == TP_CM_PGN || p == TP_DT_PGN) p = 129029UL; exec(S("tp %d %lu", b, p)); }
+    else if (r < 64) exec(S("cb %d %d", b, (int)R.below(2)));
+    else if (r < 65) exec(S("mode %d %d %d", b, (int)R.range(1, 4), (int)R.below(2)));
+    else if (r < 66) { if (R.chance(1, 2)) exec(S("hold %d %d", b, (int)R.below(2))); else exec(S("poll %d", b)); }
+    else if (r < 70) { unsigned long p = pool[R.below(np)]; if (p == TP_CM_PGN || p == TP_DT_PGN) p = 129029UL; if (R.chance(1, 2)) exec(S("tp %d %lu", b, p)); else exec(S("tp %d %lu %u %u", b, p, TPLEN[R.below(sizeof TPLEN / sizeof TPLEN[0])], tpDst(R))); }
     else if (r < 73) exec(fpLine(R, b, R.chance(1, 2) ? 129029UL : 126996UL, 0x51, (unsigned)R.range(0, 40), (unsigned)i, R.chance(1, 2) ? 0 : (int)R.range(1, NDMG - 1)));
     else if (r < 85) exec(S("msg %d %lu", b, pool[R.below(np)]));
     else exec(S("msg %d %lu", b, msgPool[R.below(NM)]));
@@ -387,6 +515,7 @@ int main(int argc, char **argv) {
     bus[b]->sent.clear();
     if (!bus[b]->isOpen()) C.fail("harness:not-open", "bus %d", b);
   }
+  nodeAddr = bus[1]->GetN2kSource();
   if (!C.replay.empty()) { for (auto &l : readLines(C.replay)) exec(l); endCase(); C.finish(); return 0; }
   Rng R(C.seed * 0x2545F4914F6CDD1DULL + 0x14);
   const unsigned long a = 127488UL, bb = 130306UL, other = 129025UL;
@@ -394,8 +523,19 @@ int main(int argc, char **argv) {
   for (const char *s : {"reset", "new 0 0", "new 1 127488", "attach 0 0", "attach 1 0", "attach 1 0", "msg 0 127488", "attach 1 1", "msg 0 127488", "msg 1 127488",
                         "destroy 1", "msg 1 127488", "new 1 127488 0", "cb 0 1", "msg 0 59904", "msg 0 60928", "msg 1 59904", "msg 1 60928", "msg 0 60416", "msg 0 60160",
                         "tp 0 127488", "tp 1 129029", "detach 0 1", "msg 0 127488", "msg 0 0", "attach 0 0",
-                        "fp 0 129029 81 20 64,65,66 001", "fp 0 129029 81 20 96,98 00", "fp 0 129029 81 20 97,98 00", "fp 0 129029 81 20 128,129,129,130 0000",
-                        "fp 0 129029 81 5 160 1", "fp 1 129029 81 20 0,1,2 001"}) exec(s);
+                        "fp 0 129029 81 20 64,65,66", "fp 0 129029 81 20 96,98", "fp 0 129029 81 20 97,98", "fp 0 129029 81 20 128,129,129,130",
+                        "fp 0 129029 81 5 160", "fp 1 129029 81 20 0,1,2", "tp 0 129029 223", "tp 0 129029 222 77", "tp 1 127488 223 255",
+                        "mode 0 4 1", "msg 0 65300", "msg 0 127488", "mode 0 2 0", "msg 0 65300", "mode 0 2 1", "mode 0 4 0", "msg 0 65300", "tp 0 65301 20", "mode 0 2 0"}) exec(s);
+  {
+    std::string q = "hold 0 1"; exec(q);
+    for (int i = 0; i < 45; i++) exec(S("msg 0 %lu", i % 3 == 0 ? 127488UL : i % 3 == 1 ? 130306UL : 129025UL));
+    for (int i = 0; i < 4; i++) exec("poll 0");
+    exec("hold 0 0");
+  }
+  for (int i = 0; i < (C.thorough ? 60 : 12); i++) burstCase(R);
+  for (int i = 0; i < (C.thorough ? 10 : 2); i++) tpCase(R);
+  for (int i = 0; i < (C.thorough ? 60 : 12); i++) modeCase(R, C.thorough ? 150 : 80);
+  C.sample("bursts of 21..75 frames (messages, fast packets, TP transfers) waiting in the driver, polled 20 at a time; TP payloads of 9..223 bytes by BAM and RTS (to the node / to somebody else); handle-only-known and forwarding options set/cleared in any order with known/unknown PGNs by single frame, fast packet and TP");
   for (int i = 0; i < (C.thorough ? 40 : 8); i++) fpCase(R, C.thorough ? 120 : 60);
   C.sample("fast packets: intact, missing first/middle/last frame, wrong counter, duplicate, swapped, wrong sequence id, restart mid-way, truncated then intact; ParseMessages after every frame; callback + all-PGN + PGN handlers on both buses");
   // exhaustive small scopes
